@@ -88,9 +88,9 @@ PROPS = {
         "fault enumeration: every position of the fault-free trace, every callback kind, plus out-of-set answers; compared with the Coq model",
         "For each base run a fault is injected at every index of its callback trace (error at should_cancel / choose_version / get_dependencies; out-of-set version at choose_version): the faulty trace must equal the fault-free one up to the fault, stop there, and the result must be the matching error variant with the same payload (package and version for get_dependencies) or Failure for an out-of-set version; the model reproduces each faulty run. Coq (2 theorems, Props/Properties_C13.v): the model's result is a function of the consumed trace prefix (no further call matters once the outcome is determined) and every error outcome is explained by an error answer of the matching callback with the same package and version (or an out-of-set answer for Failure).",
         domains=("faults",)),
-    "C14": solver_prop(None, "other",
+    "C14": solver_prop("Props/Properties_C14.v", "other",
         "per-decision check on the Coq model's decision log replayed from the Rust trace: picked package has maximal queue priority, every undecided positive package is queued with a priority reported for its current set",
-        "NOT yet a Coq theorem (needs I7/I8). At every decision of every replayed run: the package the implementation asked about has the maximal last-reported priority (the model rejects the trace otherwise), every package with a positive term and no decision has a queue entry, and its latest prioritize call was for its current set. Static, set-dependent (count), scripted and history-dependent priorities are used. The root cause of F1 violated this and was found here."),
+        "Coq (3 theorems, Props/Properties_C14.v, from the structural invariant of the changed-index bookkeeping proved in Proofs/SolverQueue.v for ANY trace and fuel): at every decision point of the model every undecided package with a positive term is queued with a priority reported for its CURRENT set, except possibly packages that were themselves picked at an earlier decision point (removing the exception needs the semantic re-queue argument, stage 2); no exception at the first decision. Which maximal element the Rust PriorityQueue pops is not modelled (adversarial parameter taken from the trace; the model rejects a non-maximal pick). Decided by exploration - at every decision of every replayed run: the package the implementation asked about has the maximal last-reported priority (the model rejects the trace otherwise), every package with a positive term and no decision has a queue entry, and its latest prioritize call was for its current set. Static, set-dependent (count), scripted and history-dependent priorities are used. The root cause of F1 violated this and was found here."),
     "C08": {
         "props": "Props/Properties_C08.v",
         "level": "proof",
